@@ -8,6 +8,7 @@ import (
 	"encoding/binary"
 	"encoding/hex"
 	"fmt"
+	"sort"
 	"strings"
 	"testing"
 
@@ -213,6 +214,98 @@ func hashRegion(b []byte) (start int, stored []byte, ok bool) {
 	return 0, nil, false
 }
 
+// unordered: the index of the first entry whose identifier is smaller than its predecessor's (MS-ADTS
+// 2.2.20.2 wants the entries sorted by identifier), -1 if there is none. Entries with the same
+// identifier (the numeric and the string-valued KeyUsage) may stand in either order.
+func unordered(es []entry) int {
+	for i := 1; i < len(es); i++ {
+		if es[i].Type < es[i-1].Type {
+			return i
+		}
+	}
+	return -1
+}
+
+func sameMultiset(a, b [][]byte) bool {
+	if len(a) != len(b) {
+		return false
+	}
+	key := func(in [][]byte) []string {
+		out := make([]string, len(in))
+		for i, v := range in {
+			out[i] = string(v)
+		}
+		sort.Strings(out)
+		return out
+	}
+	ka, kb := key(a), key(b)
+	for i := range ka {
+		if ka[i] != kb[i] {
+			return false
+		}
+	}
+	return true
+}
+
+// sameModuloTies compares a blob written by the library with the harness's blob of the same content
+// without fixing the relative order of entries that carry the same identifier: either the bytes are
+// equal, or the version is, the library's entries are in non-decreasing identifier order, every
+// identifier has the same values (as a multiset) in both, and - because the key hash covers the
+// entries after it in the order they stand in - the library's key hash entry is the SHA-256 of what
+// follows it in the library's blob. carried: the library's blob is the re-serialisation of a credential
+// parsed from ref, whose KeyHash field ToBytes may write back as parsed, i.e. the hash of the entries in
+// ref's order; that value is accepted as well then. "" if the blobs agree, otherwise what differs.
+func sameModuloTies(lib, ref []byte, carried bool) string {
+	if bytes.Equal(lib, ref) {
+		return ""
+	}
+	d := diffAt(lib, ref)
+	first := fmt.Sprintf("%d vs %d bytes, first difference at %d: %x vs %x", len(lib), len(ref), d, lib[min(d, len(lib)):min(d+4, len(lib))], ref[min(d, len(ref)):min(d+4, len(ref))])
+	lv, les, err := walk(lib)
+	if err != nil {
+		return first + "; " + err.Error()
+	}
+	rv, res, err := walk(ref)
+	if err != nil {
+		return first + "; harness blob: " + err.Error()
+	}
+	if lv != rv || len(les) != len(res) {
+		return first
+	}
+	if at := unordered(les); at >= 0 {
+		return first + fmt.Sprintf("; entry %d (identifier %#x) follows identifier %#x", at, les[at].Type, les[at-1].Type)
+	}
+	byID := func(es []entry) map[byte][][]byte {
+		m := map[byte][][]byte{}
+		for _, e := range es {
+			if e.Type != 0x02 {
+				m[e.Type] = append(m[e.Type], e.Value)
+			}
+		}
+		return m
+	}
+	lm, rm := byID(les), byID(res)
+	if len(lm) != len(rm) {
+		return first
+	}
+	for id, vals := range rm {
+		if !sameMultiset(lm[id], vals) {
+			return first + fmt.Sprintf("; the entries with identifier %#x differ", id)
+		}
+	}
+	start, stored, ok := hashRegion(lib)
+	_, refStored, refHas := hashRegion(ref)
+	if ok != refHas {
+		return first
+	}
+	if ok {
+		if want := sha256.Sum256(lib[start:]); !bytes.Equal(stored, want[:]) && !(carried && bytes.Equal(stored, refStored)) {
+			return first + "; the key hash is not the SHA-256 of the entries after it"
+		}
+	}
+	return ""
+}
+
 // compareParsed: every field the statement lists, on a credential parsed from a blob of case c.
 func compareParsed(back *keycredentiallink.KeyCredential, c kcCase, wantID string, wantUsage uint8, wantSource key.KeySource) []vf.Finding {
 	var fs []vf.Finding
@@ -283,12 +376,16 @@ func checkBlob(c kcCase) []vf.Finding {
 			ckiEntry = e.Value
 		}
 	}
+	if at := unordered(es); at >= 0 {
+		fs = append(fs, vf.F("KeyCredential.ToBytes", "entries-not-in-identifier-order", "entry %d (identifier %#x) follows identifier %#x", at, es[at].Type, es[at-1].Type))
+	}
+	// the two KeyUsage entries carry the same identifier: which of them comes first is the writer's choice
 	wantUsage := [][]byte{{kc.Usage.Value}}
 	if len(c.Legacy) > 0 {
 		wantUsage = append(wantUsage, c.Legacy)
 	}
-	if fmt.Sprintf("%x", usageEntries) != fmt.Sprintf("%x", wantUsage) {
-		fs = append(fs, vf.F("KeyCredential.ToBytes", "key-usage-entries-differ", "blob has %x want %x", usageEntries, wantUsage))
+	if !sameMultiset(usageEntries, wantUsage) {
+		fs = append(fs, vf.F("KeyCredential.ToBytes", "key-usage-entries-differ", "blob has %x want %x (in either order)", usageEntries, wantUsage))
 	}
 	if !bytes.Equal(ckiEntry, c.cki()) {
 		fs = append(fs, vf.F("KeyCredential.ToBytes", "custom-key-information-entry-differs", "blob has %x want %x", ckiEntry, c.cki()))
@@ -681,17 +778,21 @@ func checkForeignBlob(c kcCase) []vf.Finding {
 	if !kc.CheckIntegrity() {
 		fs = append(fs, vf.F("KeyCredential.CheckIntegrity", "intact-blob-fails-check", "stored hash is the SHA-256 of the entries after it"))
 	}
+	// the harness's blob puts the numeric KeyUsage entry before the string-valued one; both carry
+	// identifier 0x04, so a writer may order them the other way round (sameModuloTies)
 	again, err := kc.ToBytes()
-	if err != nil || !bytes.Equal(again, blob) {
-		d := diffAt(again, blob)
-		fs = append(fs, vf.F("KeyCredential.ToBytes", "reserialised-blob-differs", "err %v; %d vs %d bytes, first difference at %d: %x vs %x", err, len(again), len(blob), d, again[min(d, len(again)):min(d+4, len(again))], blob[min(d, len(blob)):min(d+4, len(blob))]))
+	if err != nil {
+		fs = append(fs, vf.F("KeyCredential.ToBytes", "reserialised-blob-differs", "err %v", err))
+	} else if diff := sameModuloTies(again, blob, true); diff != "" {
+		fs = append(fs, vf.F("KeyCredential.ToBytes", "reserialised-blob-differs", "%s", diff))
 	}
 	arg.untouched("KeyCredential.CheckIntegrity/ToBytes", &fs)
 	// the library's own serialisation of the same credential is this blob too
 	if built, _ := c.build(); built != nil {
-		if own, err := built.ToBytes(); err == nil && !bytes.Equal(own, blob) {
-			d := diffAt(own, blob)
-			fs = append(fs, vf.F("KeyCredential.ToBytes", "blob-differs-from-ms-adts-layout", "%d vs %d bytes, first difference at %d: %x vs %x", len(own), len(blob), d, own[min(d, len(own)):min(d+4, len(own))], blob[min(d, len(blob)):min(d+4, len(blob))]))
+		if own, err := built.ToBytes(); err == nil {
+			if diff := sameModuloTies(own, blob, false); diff != "" {
+				fs = append(fs, vf.F("KeyCredential.ToBytes", "blob-differs-from-ms-adts-layout", "%s", diff))
+			}
 		}
 	}
 	return fs
@@ -768,7 +869,7 @@ func checkReuse(c reuseCase) []vf.Finding {
 	if used.Source != fresh.Source {
 		dep("source", "%d, on a new variable %d", used.Source, fresh.Source)
 	}
-	if used.DeviceId != fresh.DeviceId {
+	if u, f := used.DeviceId, fresh.DeviceId; u.A != f.A || u.B != f.B || u.C != f.C || u.D != f.D || u.E != f.E {
 		dep("device-id", "%s, on a new variable %s", used.DeviceId.ToFormatD(), fresh.DeviceId.ToFormatD())
 	}
 	if used.LastLogonTime.Ticks != fresh.LastLogonTime.Ticks || used.CreationTime.Ticks != fresh.CreationTime.Ticks || !used.LastLogonTime.Time.Equal(fresh.LastLogonTime.Time) || !used.CreationTime.Time.Equal(fresh.CreationTime.Time) {
